@@ -1184,6 +1184,7 @@ mod envmode {
     }
 
     struct ESim {
+        cmds: Vec<Q<Command<TestEffect>>>,
         workers: Vec<Worker<TestEffect, Rx, Tx>>,
         env: Environment<TestEffect>,
         or: Vec<Oracle>,
@@ -1228,15 +1229,18 @@ mod envmode {
                     }
                 }
             }
-            let before_slots = self.workers[pick].verif_executor().verif_dump().refcounts.len();
+            // a SpawnProcess command with a heap bundle, handled in this step, may strand slots (F46)
+            let grew = self.cmds[pick]
+                .lock()
+                .unwrap()
+                .iter()
+                .any(|c| matches!(c, Command::SpawnProcess { heap_data, .. } if !heap_data.is_empty()));
             let did = self.workers[pick].step(self.now).map_err(|e| format!("ENV {:?}", e))?;
             let tr = verif::take_trace();
             self.st.steps += 1;
             self.st.instructions += tr.len();
             self.st.ops += 1;
             let ex = self.workers[pick].verif_executor();
-            // a spawn command handled in this step may have stranded slots (F46)
-            let grew = ex.verif_dump().refcounts.len() > before_slots;
             oracle(ex, &mut self.or[pick], &sus, &mut self.st, grew)
                 .map_err(|m| format!("{} after worker step #{} on worker {}", m, self.st.ops, pick))?;
             Ok(did)
@@ -1267,15 +1271,18 @@ mod envmode {
         let nworkers = c.workers;
         let mut workers = Vec::new();
         let mut handles: Vec<Box<dyn WorkerHandle<TestEffect>>> = Vec::new();
+        let mut cmds = Vec::new();
         for i in 0..nworkers {
             let cmd: Q<Command<TestEffect>> = Arc::new(Mutex::new(VecDeque::new()));
             let evt: Q<Event<TestEffect>> = Arc::new(Mutex::new(VecDeque::new()));
+            cmds.push(cmd.clone());
             workers.push(Worker::new(Rx(cmd.clone()), Tx(evt.clone()), qvh::registry(), false, i as u16));
             handles.push(Box::new(Handle { cmd, evt }));
         }
         let mut env = Environment::<TestEffect>::new(handles);
         env.set_effect_backend(Box::new(Backend));
         let mut sim = ESim {
+            cmds,
             workers,
             env,
             or: (0..nworkers).map(|_| Oracle { shadow: HashMap::new(), ledger: BTreeMap::new(), orphans: HashSet::new() }).collect(),
